@@ -64,7 +64,7 @@ add("C11", "exploration", "property-based differential testing (rapid) of VP8Pay
     "Trusted base: harness/ref/vp8desc. Acceptance of a packet that ends right after the descriptor is not asserted.",
     "DESIGN.md 4/C11")
 add("C12", "exploration", "property-based differential testing (rapid) of VP9Payloader/VP9Packet/vp9.Header against an independent RFC 9628 descriptor codec and an independent uncompressed-header bit writer",
-    "Frames whose uncompressed header is written bit by bit by the harness (all profiles, colour configurations, 16-bit sizes, garbage in reserved bits) are packetised in both modes; every packet is read by VP9Packet and the reference parser (concatenation, B/E, picture id, P, scalability structure width/height, MTU); reference-built descriptors including scalability structures with up to 255 picture groups and all truncations are decoded; vp9.Header.Unmarshal is compared field by field with the writer and must reject short prefixes.",
+    "Frames whose uncompressed header is written bit by bit by the harness (all profiles, colour configurations, 16-bit sizes, garbage in reserved bits) are packetised in both modes; every packet is read by VP9Packet and the reference parser (concatenation, B/E, picture id, P, scalability structure width/height, MTU); reference-built descriptors including scalability structures with up to 255 picture groups and all truncations are decoded (every carried field equals the model, every field the descriptor does not carry is zero or empty, also on receivers used before); vp9.Header.Unmarshal is compared field by field with the writer and must reject short prefixes.",
     "Trusted base: harness/ref/vp9desc, ref/vp9hdr. SID limited to 0-4 (library's documented maximum of 5 spatial layers); P/SS of show_existing_frame frames and frame size 65536 not asserted.",
     "DESIGN.md 4/C12")
 add("C14", "exploration", "property-based differential testing (rapid) of H265Payloader/H265Packet against an independent RFC 7798 parser, reassembler and encoder; exhaustive enumeration of the header accessor domains",
